@@ -70,8 +70,8 @@ CHECKS["C19"] = dict(
          "{DNS, IP bundle host} x {TLS1.2, 1.3} the real code accepts exactly the chains that verify against the bundle CA for the bundle host now; "
          "rejected servers complete no handshake, see no client certificate and receive zero application bytes; accepted servers see the bundle's "
          "client certificate and the contact point / host id as SNI.",
-    note="Bundle built as LoadBundleZip does but with a private root pool (system pool and zip parsing not exercised); hosts 'localhost' and "
-         "'127.0.0.1'; Go crypto/tls servers; CA validity not varied.",
+    note="Bundles are zips built in memory and loaded by astra.LoadBundleZip (a decoy bundle with the OTHER CA is loaded in the same process "
+         "first); hosts 'localhost' and '127.0.0.1'; Go crypto/tls servers; CA validity not varied.",
     design="§6 C19")
 CHECKS["C20"] = dict(
     category="exploration",
